@@ -44,7 +44,8 @@ def setup_worker():
 def plan(tier):
     if tier == "quick":
         return [("timers", {}, 20000, 250)]
-    return [("timers", {}, 400000, 500)]
+    # 'deep' goes beyond the bounds of the property text: up to three timers and twelve ticks each
+    return [("timers", {}, 400000, 500), ("deep", {"deep": 1}, 150000, 500)]
 
 
 def _ulp(x):
@@ -61,11 +62,11 @@ def scenario(ch, cfg):
     klong[".system"] = {"ioloop": loop, "klongloop": loop, "closeEvent": None}
     res = loop._clock_resolution
     stats = w.stats
-    ntimers = 1 + ch.weighted([3, 2], "ntimers")
+    ntimers = 1 + (ch.weighted([2, 2, 2], "ntimers") if cfg.get("deep") else ch.weighted([3, 2], "ntimers"))
     timers = []
     for t in range(ntimers):
         interval = ch.pick([1, 2, 5, 0], "interval")
-        nt = 1 + ch.draw(6, "nticks")
+        nt = 1 + ch.draw(12 if cfg.get("deep") else 6, "nticks")
         script = []
         for k in range(nt):
             dur = ch.weighted([5, 2, 1, 1], "dur")           # 0, 0.3i, 1.0i, 2.5i
